@@ -761,6 +761,19 @@ func (ff *fsFile) bigFileReader() (io.Reader, error) {
 	if err != nil {
 		return nil, fmt.Errorf("cannot open already opened file: %s", err)
 	}
+	// The path may name another file by now (the cached file was replaced, or removed and re-created):
+	// never send that file's bytes under the headers of the cached one.
+	fi, err := f.Stat()
+	if err == nil {
+		var fi0 os.FileInfo
+		if fi0, err = ff.f.Stat(); err == nil && !os.SameFile(fi0, fi) {
+			err = fmt.Errorf("%q no longer names the cached file", ff.f.Name())
+		}
+	}
+	if err != nil {
+		f.Close()
+		return nil, fmt.Errorf("cannot open already opened file: %s", err)
+	}
 	return &bigFileReader{
 		f:  f,
 		ff: ff,
